@@ -1103,6 +1103,10 @@ func (x *Exec) visitIf(fr *frame, instr *ssa.If) continuation {
 				if x.ifConvert(fr, instr, d, cv) {
 					return kJump
 				}
+			} else if isReturnArm(instr.Block().Succs[0]) && isReturnArm(instr.Block().Succs[1]) {
+				if x.retConvert(fr, instr, cv) {
+					return kReturn
+				}
 			}
 			if x.eng.mergeFns[fr.fn.String()] && x.mergeReturns(fr, instr, cv) {
 				return kReturn
@@ -1221,15 +1225,189 @@ func (x *Exec) mergeScalar(c *Term, vt, vf Value, t types.Type) (Value, bool) {
 	return nil, false
 }
 
+// isReturnArm: a block without phis that ends in a Return (`if c { return X }; return Y`).
+func isReturnArm(b *ssa.BasicBlock) bool {
+	if len(b.Instrs) == 0 || len(b.Instrs) > 24 {
+		return false
+	}
+	if _, ok := b.Instrs[len(b.Instrs)-1].(*ssa.Return); !ok {
+		return false
+	}
+	if _, isPhi := b.Instrs[0].(*ssa.Phi); isPhi {
+		return false
+	}
+	return true
+}
+
+// retConvert if-converts `if c { return X } return Y` when both arms are pure: the results (and
+// the memory written by the arms) are merged under c and the function returns once.
+func (x *Exec) retConvert(fr *frame, instr *ssa.If, c *Term) bool {
+	blk := instr.Block()
+	armT, armF := blk.Succs[0], blk.Succs[1]
+	if armT == armF {
+		return false
+	}
+	rets := fr.fn.Signature.Results()
+	for i := 0; i < rets.Len(); i++ {
+		if !mergeableType(rets.At(i).Type(), 0) {
+			return false
+		}
+	}
+	steps := x.steps
+	results := func(b *ssa.BasicBlock) []Value {
+		r := b.Instrs[len(b.Instrs)-1].(*ssa.Return)
+		out := make([]Value, len(r.Results))
+		for i, v := range r.Results {
+			out[i] = fr.get(v)
+		}
+		return out
+	}
+	finT, logT, ok := x.runArm(fr, armT)
+	if !ok {
+		x.steps = steps
+		return false
+	}
+	resT := results(armT)
+	finF, logF, ok := x.runArm(fr, armF)
+	if !ok {
+		x.steps = steps
+		return false
+	}
+	resF := results(armF)
+	type upd struct {
+		addr *Value
+		v    Value
+		t    types.Type
+	}
+	var upds []upd
+	seen := map[*Value]bool{}
+	for _, lg := range [][]undoRec{logT, logF} {
+		for _, u := range lg {
+			if seen[u.addr] {
+				continue
+			}
+			seen[u.addr] = true
+			vt, okT := finT[u.addr]
+			if !okT {
+				vt = *u.addr
+			}
+			vf, okF := finF[u.addr]
+			if !okF {
+				vf = *u.addr
+			}
+			m, ok := x.mergeValue(c, vt, vf, u.t)
+			if !ok {
+				x.steps = steps
+				return false
+			}
+			upds = append(upds, upd{u.addr, m, u.t})
+		}
+	}
+	merged := make([]Value, len(resT))
+	for i := range resT {
+		m, ok := x.mergeValue(c, resT[i], resF[i], rets.At(i).Type())
+		if !ok {
+			x.steps = steps
+			return false
+		}
+		merged[i] = m
+	}
+	for _, u := range upds {
+		x.write(u.addr, u.v, u.t)
+	}
+	switch len(merged) {
+	case 0:
+		fr.result = nil
+	case 1:
+		fr.result = merged[0]
+	default:
+		fr.result = Tuple(merged)
+	}
+	x.ifconv++
+	fr.block = nil
+	return true
+}
+
+// mergeableType: values of this type can be merged under a condition (scalars, and structs/arrays
+// of such; pointers only when both arms carry the same pointer, checked at merge time).
+func mergeableType(t types.Type, depth int) bool {
+	if depth > 4 {
+		return false
+	}
+	if _, _, isInt := intInfo(t); isInt || isBoolT(t) {
+		return true
+	}
+	switch u := t.Underlying().(type) {
+	case *types.Struct:
+		for i := 0; i < u.NumFields(); i++ {
+			if !mergeableType(u.Field(i).Type(), depth+1) {
+				return false
+			}
+		}
+		return true
+	case *types.Array:
+		return u.Len() <= 16 && mergeableType(u.Elem(), depth+1)
+	case *types.Pointer:
+		return depth > 0 // only as a field (e.g. time.Time.loc); must be identical in both arms
+	}
+	return false
+}
+
+// mergeValue is mergeScalar extended to structs and small arrays (field-wise).
+func (x *Exec) mergeValue(c *Term, vt, vf Value, t types.Type) (Value, bool) {
+	if t != nil {
+		switch u := t.Underlying().(type) {
+		case *types.Struct:
+			st, ok1 := vt.(Struct)
+			sf, ok2 := vf.(Struct)
+			if !ok1 || !ok2 || len(st) != len(sf) || len(st) != u.NumFields() {
+				return nil, false
+			}
+			out := make(Struct, len(st))
+			for i := range st {
+				m, ok := x.mergeValue(c, st[i], sf[i], u.Field(i).Type())
+				if !ok {
+					return nil, false
+				}
+				out[i] = m
+			}
+			return out, true
+		case *types.Array:
+			at, ok1 := vt.(Array)
+			af, ok2 := vf.(Array)
+			if !ok1 || !ok2 || len(at) != len(af) {
+				return nil, false
+			}
+			out := make(Array, len(at))
+			for i := range at {
+				m, ok := x.mergeValue(c, at[i], af[i], u.Elem())
+				if !ok {
+					return nil, false
+				}
+				out[i] = m
+			}
+			return out, true
+		case *types.Pointer:
+			pt, ok1 := vt.(*Value)
+			pf, ok2 := vf.(*Value)
+			if ok1 && ok2 && pt == pf {
+				return pt, true
+			}
+			return nil, false
+		}
+	}
+	return x.mergeScalar(c, vt, vf, t)
+}
+
 func (x *Exec) ifConvert(fr *frame, instr *ssa.If, d *diamond, c *Term) bool {
-	// phis at the join must be scalar-typed
+	// phis at the join must be scalar-typed (or structs/arrays of scalars)
 	var phis []*ssa.Phi
 	for _, in := range d.join.Instrs {
 		p, ok := in.(*ssa.Phi)
 		if !ok {
 			break
 		}
-		if _, _, isInt := intInfo(p.Type()); !isInt && !isBoolT(p.Type()) {
+		if !mergeableType(p.Type(), 0) {
 			return false
 		}
 		phis = append(phis, p)
@@ -1298,7 +1476,7 @@ func (x *Exec) ifConvert(fr *frame, instr *ssa.If, d *diamond, c *Term) bool {
 			if !okF {
 				vf = *u.addr
 			}
-			m, ok := x.mergeScalar(c, vt, vf, u.t)
+			m, ok := x.mergeValue(c, vt, vf, u.t)
 			if !ok {
 				x.steps = steps
 				return false
@@ -1306,15 +1484,21 @@ func (x *Exec) ifConvert(fr *frame, instr *ssa.If, d *diamond, c *Term) bool {
 			upds = append(upds, upd{u.addr, m, u.t})
 		}
 	}
+	phiM := make([]Value, len(phis))
+	for i, p := range phis {
+		m, ok := x.mergeValue(c, phiT[i], phiF[i], p.Type())
+		if !ok {
+			// e.g. different pointers inside a struct: fork instead
+			x.steps = steps
+			return false
+		}
+		phiM[i] = m
+	}
 	for _, u := range upds {
 		x.write(u.addr, u.v, u.t)
 	}
 	for i, p := range phis {
-		m, ok := x.mergeScalar(c, phiT[i], phiF[i], p.Type())
-		if !ok {
-			panic("ifConvert: phi merge failed after type check")
-		}
-		fr.env[p] = m
+		fr.env[p] = phiM[i]
 	}
 	x.ifconv++
 	// continue at the join; its phis are already assigned
